@@ -8,7 +8,43 @@ K1_C14 = ['Model.agent', 'Model.agent_ids', 'Model.agent_count', 'Model.agent_co
 K1_C13 = ['DataCollector.collect_agent_statistics', 'DataCollector.record_event', 'DataCollector.statistics',
           'DataCollector.reset']
 
+K1_C11 = ['Scheduler.handle_delayed_event', 'Agent.receive_event', 'Agent.handle_events', 'Model.enqueue_event',
+          'Model.broadcast_event', 'SimultaneousScheduler.run_step', 'Model.agent']
+K1_C12 = ['SimultaneousScheduler.run_step', 'SimultaneousScheduler.run', 'Model.run', 'Model.run_step',
+          'Agent.handle_events']
+
+_ABM_ASSUME = [
+    'user callbacks (act, begin_round, end_round, event handlers, factories) follow the callback contract: they may change agent state/properties and enqueue Event objects; they do not change the registry, inboxes, handler tables, the scheduler, run specs, delays of queued events, or ids/types of agents',
+    "the model's scheduler is the SimultaneousScheduler; progress_widget is None/False (non-notebook use)",
+    'floats are mathematical reals (encoding R): delay - dt, round + step*dt; round(x) is an integer within 1/2 of x',
+    'Python ints are mathematical integers (true); dict iteration = insertion order; single-threaded execution; log() dropped',
+]
+
 PROPS = {
+    'C11': dict(
+        mods=['contracts.c11_c12_sched'], k1=K1_C11, level='proof', engines=['contracts.c11_lemmas'],
+        harness='verif/native/c11_harness.py', harness_budget=(15, 90),
+        explanation='ghost-instrumented contracts (per-event delivery counter / receiver / sequence number, handler counter) on '
+                    'the distribution loop of SimultaneousScheduler.run_step, Scheduler.handle_delayed_event, Agent.receive_event, '
+                    'Agent.handle_events, Model.enqueue_event/broadcast_event: every event queued at the start of a step goes through '
+                    'exactly one pass: held back with delay-dt, or put once into the inbox of the agent whose id equals receiver_id '
+                    '(nobody if no such agent), later-queued first; the inbox is drained and each event dispatched exactly once',
+        assumptions=_ABM_ASSUME + ['the per-event statements are conditional on the queue / inbox holding no event OBJECT twice (a twice-queued object is delivered twice)'],
+        not_decided=[
+            'not decided deductively: the composition over steps (sent at t => handled at t+1+ceil(delay/dt)) is a paper lemma over the contracts plus the discharged real-arithmetic lemma on the countdown; float countdown (0.3-3*0.1>0) is outside encoding R',
+            'not decided: that held-back events reappear at the tail of model.events after the step (concatenation with symbolic lengths) -- only their membership in scheduler.delayed_events at the end of the distribution loop is proved',
+        ]),
+    'C12': dict(
+        mods=['contracts.c11_c12_sched'], k1=K1_C12, level='proof',
+        harness='verif/native/c12_harness.py', harness_budget=(15, 90),
+        explanation='ghost callback trace: run_step appends exactly begin, (handle(a), act(a)) for every agent in list order, end, '
+                    'and collect(time) iff data collection is on or it is the final step; run() logs a successor chain of (round, step) '
+                    'pairs from (start,0) to (stop, S-1) -- every step once, in increasing time order; Model.run / run_step delegate',
+        assumptions=_ABM_ASSUME + ['callbacks do not change the registry or scheduler.running during a step (otherwise the statement is about the agents iterated: Python list-iterator semantics, not modelled)'],
+        not_decided=[
+            'not decided: HybridRunner.run_scenario (thread per scenario, skip-unfinished filter, pandas) -- unverified',
+            'not decided deductively: agents created/deleted by callbacks in the middle of a step; reached only by the native replay harness',
+        ]),
     'C13': dict(
         mods=['contracts.c13_stats'], k1=K1_C13, level='proof',
         harness='verif/native/c13_harness.py', harness_budget=(8, 60), always_harness=True,
